@@ -224,7 +224,7 @@ func c13Run(r *core.Run) {
 	depth, treeDepth := 7, 0
 	r.SetBudget(60 * time.Second)
 	if r.Thorough() {
-		depth, treeDepth = 9, 7
+		depth, treeDepth = 10, 8
 		r.SetBudget(9 * time.Minute)
 	}
 	r.Rule = "engine B: BFS over histories of {WriteHeader(201),WriteHeader(404),Write(ab),Write(''),Flush,Before(h1),Before(h2),Write(c)} replayed on a fresh flamego.NewResponseWriter over a spy; state key = (status,size,pending hooks,what the spy received,hook observations); model+invariants compared after every transition; plus a status sweep (every status 100..999 in place of 201 in all short sequences, compared step by step); non-trivial = transition taken when a status had already been sent or a hook was pending (the cases where 'once' logic matters)"
